@@ -697,7 +697,46 @@ def client_plan():
                         old = env.get(name, 'false')
                         env[name] = None if old is None else '(if %s then %s else %s)' % (pc, 'false' if isnone else 'true', old)
     walk(fd[0].body, 'true')
-    out = ['(* tlslite/tlsconnection.py:%d _clientKeyExchange, interpreted over the suite: when the client waits for a' % fd[0].lineno,
+    # the client's certificate-key-type rule: `if cipherSuite in X: fitting = (...) elif ... else: fitting = (...)` and
+    # `if cert_alg not in fitting: for .. in self._sendError(AlertDescription.<alert>, ..): yield ..`
+    def fitting_of(body):
+        if len(body) == 1 and isinstance(body[0], ast.Assign) and len(body[0].targets) == 1 \
+                and isinstance(body[0].targets[0], ast.Name) and body[0].targets[0].id == 'fitting' \
+                and isinstance(body[0].value, ast.Tuple) \
+                and all(isinstance(e, ast.Constant) and isinstance(e.value, str) for e in body[0].value.elts):
+            return '[' + '; '.join(sl(e.value) for e in body[0].value.elts) + ']'
+        return None
+
+    def fit_chain(node):
+        g = _membership(node.test, 'cipherSuite')[0]
+        a = fitting_of(node.body)
+        if a is None:
+            raise Refuse('certificate key type chain: unexpected branch at line %d' % node.lineno)
+        if len(node.orelse) == 1 and isinstance(node.orelse[0], ast.If):
+            b = fit_chain(node.orelse[0])
+        else:
+            b = fitting_of(node.orelse)
+            if b is None:
+                raise Refuse('certificate key type chain: unexpected else at line %d' % node.lineno)
+        return '(if %s then %s else %s)' % (g, a, b)
+    heads = [n for n in ast.walk(fd[0]) if isinstance(n, ast.If) and fitting_of(n.body) is not None]
+    nested = set(id(n.orelse[0]) for n in heads if len(n.orelse) == 1 and isinstance(n.orelse[0], ast.If))
+    heads = [n for n in heads if id(n) not in nested]
+    guards = []
+    for n in ast.walk(fd[0]):
+        if isinstance(n, ast.If) and ast.unparse(n.test) == 'cert_alg not in fitting':
+            for b in n.body:
+                if isinstance(b, ast.For) and isinstance(b.iter, ast.Call) and ast.unparse(b.iter.func) == 'self._sendError' \
+                        and b.iter.args and any(isinstance(y, ast.Expr) and isinstance(y.value, ast.Yield) for y in b.body):
+                    guards.append(ast.unparse(b.iter.args[0]))
+    if len(heads) > 1:
+        raise Refuse('_clientKeyExchange: more than one certificate key type chain')
+    fit_code = fit_chain(heads[0]) if heads else '[]'
+    out = ['(* _clientKeyExchange: the certificate key types (X509.certAlg) the client accepts for suite s (empty: no such',
+           '   rule in the source), and the alerts with which a certificate of another key type is refused *)',
+           'Definition gen_cli_fitting_cert_types (s : Z) : list string :=\n  %s.\n' % fit_code,
+           'Definition cli_cert_type_alerts : list string := [%s].\n' % '; '.join(sl(g) for g in guards)]
+    out += ['(* tlslite/tlsconnection.py:%d _clientKeyExchange, interpreted over the suite: when the client waits for a' % fd[0].lineno,
            '   Certificate, for a ServerKeyExchange, and when it verifies the ServerKeyExchange signature *)']
     for key, gname in (('certificate', 'gen_cli_gets_certificate'), ('server_key_exchange', 'gen_cli_gets_ske'),
                        ('verify', 'gen_cli_verifies_ske_signature')):
